@@ -1617,6 +1617,8 @@ mod h3dg {
         let sends: Vec<Value> = scn["sends"].as_array().cloned().unwrap_or_default();
         let raws: Vec<Vec<u8>> = scn["raws"].as_array().map(|a| a.iter().map(bytes_of).collect()).unwrap_or_default();
         let n_raws = raws.len();
+        let pre_error = scn["pre_error"] == true;
+        let ctl_bytes = if scn["ctl"].is_array() { bytes_of(&scn["ctl"]) } else { vec![0, 4, 2, 0x33, 1] };
         let expect_close = scn["expect_close"] == true;
         let (done_tx, done_rx) = tokio::sync::oneshot::channel::<()>();
         let (go_tx, go_rx) = tokio::sync::oneshot::channel::<usize>();
@@ -1632,6 +1634,22 @@ mod h3dg {
                         return;
                     }
                 };
+                if pre_error {
+                    // (C05) the connection already has its outcome when the datagram reader is asked: it has to report that one
+                    match tokio::time::timeout(CAP, poll_fn(|cx| driver.poll_close(cx))).await {
+                        Err(_) => push(&hl, json!({"ev": "driver", "res": {"k": "pending"}})),
+                        Ok(e) => push(&hl, json!({"ev": "driver", "res": proj::conn_err(&e)})),
+                    }
+                    let mut rx = driver.get_datagram_reader();
+                    match tokio::time::timeout(WAIT, rx.read_datagram()).await {
+                        Err(_) => push(&hl, json!({"ev": "dg_read", "res": {"k": "pending"}})),
+                        Ok(Ok(_)) => push(&hl, json!({"ev": "dg_read", "res": {"k": "datagram"}})),
+                        Ok(Err(e)) => push(&hl, json!({"ev": "dg_read", "res": proj::stream_err(&e)})),
+                    }
+                    let _ = go_tx.send(0);
+                    drop(sender);
+                    return;
+                }
                 let failed = datagram_io!(hl, driver, sends, go_tx, n_raws, done_rx);
                 if failed {
                     match tokio::time::timeout(CAP, poll_fn(|cx| driver.poll_close(cx))).await {
@@ -1652,6 +1670,21 @@ mod h3dg {
                         return;
                     }
                 };
+                if pre_error {
+                    match tokio::time::timeout(CAP, conn.accept()).await {
+                        Err(_) => push(&hl, json!({"ev": "driver", "res": {"k": "pending"}})),
+                        Ok(Ok(_)) => push(&hl, json!({"ev": "driver", "res": {"k": "no_error"}})),
+                        Ok(Err(e)) => push(&hl, json!({"ev": "driver", "res": proj::conn_err(&e)})),
+                    }
+                    let mut rx = conn.get_datagram_reader();
+                    match tokio::time::timeout(WAIT, rx.read_datagram()).await {
+                        Err(_) => push(&hl, json!({"ev": "dg_read", "res": {"k": "pending"}})),
+                        Ok(Ok(_)) => push(&hl, json!({"ev": "dg_read", "res": {"k": "datagram"}})),
+                        Ok(Err(e)) => push(&hl, json!({"ev": "dg_read", "res": proj::stream_err(&e)})),
+                    }
+                    let _ = go_tx.send(0);
+                    return;
+                }
                 let failed = datagram_io!(hl, conn, sends, go_tx, n_raws, done_rx);
                 if failed {
                     match tokio::time::timeout(CAP, conn.accept()).await {
@@ -1665,7 +1698,7 @@ mod h3dg {
         // ---- the raw peer: a control stream with SETTINGS (H3_DATAGRAM = 1), then it reads, then it sends
         let mut keep: Vec<Box<dyn std::any::Any + Send>> = vec![];
         if let Ok(mut ctl) = raw.open_uni().await {
-            let _ = ctl.write_all(&[0, 4, 2, 0x33, 1]).await;
+            let _ = ctl.write_all(&ctl_bytes).await;
             keep.push(Box::new(ctl));
         }
         let n_ok = tokio::time::timeout(CAP, go_rx).await.ok().and_then(|r| r.ok()).unwrap_or(0);
